@@ -1,12 +1,12 @@
 """C12 — CTR-wrapper writes keep ciphertext file and plaintext view consistent."""
-from corr_c01 import gen_crypto_node
+from corr_c01 import gen_crypto_node, VirtualFile, HUGE, CTR_POOL
 from stackcheck import StackCheck, gen_ops
 
 
 class C12(StackCheck):
     prop = 'C12'
     rule = ('as C01 plus write ops (empty, unaligned, block-straddling, extending the file, truncated by a window) in '
-            'every adjacent pairing of read/write/seek; after every op the monitor compares the underlying file with '
+            'every adjacent pairing of read/write/seek, plus writes and read-backs beyond 2^32 bytes / blocks / 2^64 on a sparse virtual file (monitor only); after every op the monitor compares the underlying file with '
             'the ECB-encryption of a shadow plaintext bytearray; non-trivial = some op moved data or raised')
     trusted_base = [
         'Lean 4.33 kernel; axioms propext, Classical.choice, Quot.sound only',
@@ -21,8 +21,84 @@ class C12(StackCheck):
         return 500 if tier == 'quick' else 4000
 
     def gen(self, rng, tier, i):
+        if rng.chance(0.12):
+            # writes and read-backs at positions beyond 2^32 bytes / 2^32 blocks, on a sparse virtual file
+            ops = []
+            for _ in range(rng.randint(1, 3)):
+                at = rng.pick(HUGE) + rng.pick([0, 1, 5, 15, 16, 17, 0xFF0, -1, -16, -33])
+                ops.append(['s', at, 0])
+                ops.append(['w', rng.rbytes(rng.pick([1, 5, 16, 17, 33]))])
+                if rng.chance(0.5):
+                    ops.append(['w', rng.rbytes(rng.pick([1, 16, 20]))])
+                ops.append(['s', at - rng.pick([0, 3, 16]), 0])
+                ops.append(['r', rng.pick([16, 40, 64])])
+            return {'huge': True, 'kind': rng.pick(['ctr', 'ctr', 'twl']), 'key': rng.rbytes(16),
+                    'ctr': rng.pick(CTR_POOL[:3] + [rng.getrandbits(100)]), 'seed': rng.rbytes(8), 'ops': ops}
         node, ln = gen_crypto_node(rng, rng.pick(['ctr', 'twl']), [0, 1, 15, 16, 17, 31, 32, 40, 64])
         return {'node': node, 'ops': gen_ops(rng, ln, writes=True, queries=False)}
+
+    def run_case(self, case, drv):
+        if not case.get('huge'):
+            return super().run_case(case, drv)
+        import envsetup
+        from filestack import ctr_xor
+        from framework import CaseResult
+        e = envsetup.install()
+        eng = e.CryptoEngine()
+        twl = case['kind'] == 'twl'
+        slot = 0x01 if twl else 0x10
+        eng.set_normal_key(slot, case['key'])
+        vf = VirtualFile((1 << 70) + 4096, case['seed'])
+        f = eng.create_ctr_io(slot, vf, case['ctr'])
+        mon, outs = [], []
+        pos = 0
+
+        def plain(at, n):
+            """the logical plaintext of [at, at+n) = decryption of what the file holds now"""
+            ct = vf.content(at - at % 16, n + at % 16)
+            return ctr_xor(case['key'], (case['ctr'] + (at >> 4)) % (1 << 128), ct, twl)[at % 16:]
+        for op in case['ops']:
+            try:
+                if op[0] == 's':
+                    pos = f.seek(op[1], op[2])
+                    outs.append(f'n:{pos}')
+                elif op[0] == 'w':
+                    data = bytes(op[1])
+                    before = plain(pos - 32, 64 + len(data)) if pos >= 32 else None
+                    n = f.write(data)
+                    outs.append(f'n:{n}')
+                    if n != len(data):
+                        mon.append(f'write of {len(data)} bytes at {pos:#x} returned {n}')
+                    if plain(pos, len(data)) != data:
+                        mon.append(f'after write at {pos:#x} the file is not the encryption of the written plaintext')
+                    if before is not None:
+                        after = plain(pos - 32, 64 + len(data))
+                        if after[:32] != before[:32] or after[32 + len(data):] != before[32 + len(data):]:
+                            mon.append(f'write at {pos:#x} changed the plaintext next to the written range')
+                    pos += n
+                else:
+                    d = f.read(op[1])
+                    outs.append('b:' + d.hex())
+                    if d != plain(pos, op[1]):
+                        mon.append(f'read({op[1]}) at {pos:#x}: bytes differ from the decryption of the file at that position')
+                    pos += len(d)
+            except Exception as ex:     # noqa
+                outs.append('e:' + type(ex).__name__)
+                mon.append(f'{op[0]} at {pos:#x} raised {type(ex).__name__}')
+                break
+        real = ' '.join(outs)
+        return CaseResult(real, real, mon, 'huge:' + str(case['ops'])[:60], 'ctr.huge' if mon else None, {'stack:huge-' + case['kind']: 1})
+
+    def shrink(self, case):
+        if not case.get('huge'):
+            yield from super().shrink(case)
+            return
+        ops = case['ops']
+        for i in range(len(ops)):
+            if len(ops) > 1:
+                c = dict(case)
+                c['ops'] = ops[:i] + ops[i + 1:]
+                yield c
 
     def exhaustive(self, tier):
         if tier != 'thorough':
